@@ -18,25 +18,25 @@ import (
 	"strings"
 )
 
-func exprText(e ast.Expr) string {
+func ibcExprText(e ast.Expr) string {
 	switch e := e.(type) {
 	case *ast.Ident:
 		return e.Name
 	case *ast.SelectorExpr:
-		return exprText(e.X) + "." + e.Sel.Name
+		return ibcExprText(e.X) + "." + e.Sel.Name
 	case *ast.StarExpr:
-		return exprText(e.X)
+		return ibcExprText(e.X)
 	case *ast.UnaryExpr:
-		return exprText(e.X)
+		return ibcExprText(e.X)
 	case *ast.CompositeLit:
-		return exprText(e.Type)
+		return ibcExprText(e.Type)
 	case *ast.ParenExpr:
-		return exprText(e.X)
+		return ibcExprText(e.X)
 	}
 	return "?"
 }
 
-func leanStrList(xs []string) string {
+func ibcStrList(xs []string) string {
 	var q []string
 	for _, x := range xs {
 		q = append(q, strconv.Quote(x))
@@ -86,7 +86,7 @@ func genIBC(repo string) (string, []string, error) {
 			inner = ie.e
 		}
 		call, ok := inner.(*ast.CallExpr)
-		if !ok || exprText(call.Fun) != "math.LegacyNewDec" || len(call.Args) != 1 {
+		if !ok || ibcExprText(call.Fun) != "math.LegacyNewDec" || len(call.Args) != 1 {
 			return "", nil, fmt.Errorf("MinTokenAllocation is not math.LegacyNewDec(n)")
 		}
 		lit, ok := call.Args[0].(*ast.BasicLit)
@@ -108,7 +108,7 @@ func genIBC(repo string) (string, []string, error) {
 	for _, f := range an.files {
 		ast.Inspect(f, func(n ast.Node) bool {
 			call, ok := n.(*ast.CallExpr)
-			if !ok || exprText(call.Fun) != "BlockTypeUrls" || len(call.Args) < 1 {
+			if !ok || ibcExprText(call.Fun) != "BlockTypeUrls" || len(call.Args) < 1 {
 				return true
 			}
 			lit, ok := call.Args[0].(*ast.BasicLit)
@@ -119,12 +119,12 @@ func genIBC(repo string) (string, []string, error) {
 			found = true
 			for _, a := range call.Args[1:] {
 				c, ok := a.(*ast.CallExpr)
-				if !ok || exprText(c.Fun) != "sdk.MsgTypeURL" || len(c.Args) != 1 {
+				if !ok || ibcExprText(c.Fun) != "sdk.MsgTypeURL" || len(c.Args) != 1 {
 					notes = append(notes, "BlockTypeUrls argument of unexpected shape")
 					blocked[depth] = append(blocked[depth], "?")
 					continue
 				}
-				blocked[depth] = append(blocked[depth], exprText(c.Args[0]))
+				blocked[depth] = append(blocked[depth], ibcExprText(c.Args[0]))
 			}
 			return true
 		})
@@ -132,8 +132,8 @@ func genIBC(repo string) (string, []string, error) {
 	if !found {
 		return "", nil, fmt.Errorf("no BlockTypeUrls call in cosmos_handler.go")
 	}
-	fmt.Fprintf(&b, "/-- message types refused at depth ≥ 1 (inside a wrapper) -/\ndef nestedBlocked : List String := %s\n", leanStrList(blocked[1]))
-	fmt.Fprintf(&b, "/-- message types refused at any depth -/\ndef alwaysBlocked : List String := %s\n", leanStrList(blocked[0]))
+	fmt.Fprintf(&b, "/-- message types refused at depth ≥ 1 (inside a wrapper) -/\ndef nestedBlocked : List String := %s\n", ibcStrList(blocked[1]))
+	fmt.Fprintf(&b, "/-- message types refused at any depth -/\ndef alwaysBlocked : List String := %s\n", ibcStrList(blocked[0]))
 
 	// ---- IBCMessagesDecorator: handled message types (top level only: it ranges over tx.GetMsgs())
 	lc, err := loadFiles(filepath.Join(repo, "x/lightclient/keeper/ibc_msgs.go"))
@@ -151,17 +151,17 @@ func genIBC(repo string) (string, []string, error) {
 		case *ast.TypeSwitchStmt:
 			for _, c := range n.Body.List {
 				for _, t := range c.(*ast.CaseClause).List {
-					handled = append(handled, exprText(t))
+					handled = append(handled, ibcExprText(t))
 				}
 			}
 		case *ast.CallExpr:
-			if strings.Contains(exprText(n.Fun), "GetMessages") || strings.Contains(exprText(n.Fun), "GetMsgs") && exprText(n.Fun) != "tx.GetMsgs" {
+			if strings.Contains(ibcExprText(n.Fun), "GetMessages") || strings.Contains(ibcExprText(n.Fun), "GetMsgs") && ibcExprText(n.Fun) != "tx.GetMsgs" {
 				recurses = true
 			}
 		}
 		return true
 	})
-	fmt.Fprintf(&b, "/-- message types IBCMessagesDecorator looks at -/\ndef anteHandled : List String := %s\n", leanStrList(handled))
+	fmt.Fprintf(&b, "/-- message types IBCMessagesDecorator looks at -/\ndef anteHandled : List String := %s\n", ibcStrList(handled))
 	fmt.Fprintf(&b, "/-- does it look inside wrapper messages? -/\ndef anteHandlesNested : Bool := %v\n", recurses)
 
 	// ---- IsCanonicalClientParamsValid
@@ -178,15 +178,15 @@ func genIBC(repo string) (string, []string, error) {
 	ast.Inspect(fn.Body, func(n ast.Node) bool {
 		switch n := n.(type) {
 		case *ast.RangeStmt:
-			ranges = append(ranges, exprText(n.X))
+			ranges = append(ranges, ibcExprText(n.X))
 		case *ast.CallExpr:
-			if exprText(n.Fun) == "len" {
+			if ibcExprText(n.Fun) == "len" {
 				lenCmp = true
 			}
 		}
 		return true
 	})
-	fmt.Fprintf(&b, "/-- what the loops of IsCanonicalClientParamsValid range over -/\ndef paramsLoopsOver : List String := %s\n", leanStrList(ranges))
+	fmt.Fprintf(&b, "/-- what the loops of IsCanonicalClientParamsValid range over -/\ndef paramsLoopsOver : List String := %s\n", ibcStrList(ranges))
 	fmt.Fprintf(&b, "def paramsComparesLengths : Bool := %v\n", lenCmp)
 	// expected upgrade path literal in ExpectedCanonicalClientParams
 	fn, ok = pr.funcs["ExpectedCanonicalClientParams"]
@@ -196,7 +196,7 @@ func genIBC(repo string) (string, []string, error) {
 	var path []string
 	ast.Inspect(fn.Body, func(n ast.Node) bool {
 		kv, ok := n.(*ast.KeyValueExpr)
-		if !ok || exprText(kv.Key) != "UpgradePath" {
+		if !ok || ibcExprText(kv.Key) != "UpgradePath" {
 			return true
 		}
 		if cl, ok := kv.Value.(*ast.CompositeLit); ok {
@@ -209,7 +209,54 @@ func genIBC(repo string) (string, []string, error) {
 		}
 		return true
 	})
-	fmt.Fprintf(&b, "def expectedUpgradePath : List String := %s\n", leanStrList(path))
+	fmt.Fprintf(&b, "def expectedUpgradePath : List String := %s\n", ibcStrList(path))
+	// ---- three more shapes of x/lightclient the model depends on
+	calls := func(files []string, fn, callee string) (bool, error) {
+		ps, err := loadFiles(files...)
+		if err != nil {
+			return false, err
+		}
+		f, ok := ps.funcs[fn]
+		if !ok {
+			return false, fmt.Errorf("%s not found", fn)
+		}
+		found := false
+		ast.Inspect(f.Body, func(n ast.Node) bool {
+			switch n := n.(type) {
+			case *ast.CallExpr:
+				if strings.HasSuffix(ibcExprText(n.Fun), callee) {
+					found = true
+				}
+			case *ast.SelectorExpr:
+				if ibcExprText(n) == callee {
+					found = true
+				}
+			}
+			return true
+		})
+		return found, nil
+	}
+	kdir := filepath.Join(repo, "x/lightclient/keeper")
+	v, err := calls([]string{filepath.Join(kdir, "client_store.go")}, "Keeper.GetFirstConsensusStateHeight", "IterateConsensusStateAscending")
+	if err != nil {
+		return "", nil, err
+	}
+	fmt.Fprintf(&b, "/-- GetFirstConsensusStateHeight walks the numerically ordered iteration keys -/\ndef firstConsHeightNumeric : Bool := %v\n", v)
+	v, err = calls([]string{filepath.Join(kdir, "rollback.go")}, "Keeper.ResolveHardFork", "NextSequencerForHeight")
+	if err != nil {
+		return "", nil, err
+	}
+	fmt.Fprintf(&b, "/-- ResolveHardFork takes the next validators from StateInfo.NextSequencerForHeight -/\ndef resolveUsesNextSequencer : Bool := %v\n", v)
+	v, err = calls([]string{filepath.Join(kdir, "ibc_msg_update_client.go")}, "IBCMessagesDecorator.HandleMsgUpdateClient", "seq.RollappId")
+	if err != nil {
+		return "", nil, err
+	}
+	fmt.Fprintf(&b, "/-- HandleMsgUpdateClient looks at the rollapp of the named sequencer -/\ndef updateChecksSequencerRollapp : Bool := %v\n", v)
+	v, err = calls([]string{filepath.Join(kdir, "ibc_msg_update_client.go")}, "IBCMessagesDecorator.HandleMsgUpdateClient", "header.Header.ValidatorsHash")
+	if err != nil {
+		return "", nil, err
+	}
+	fmt.Fprintf(&b, "/-- HandleMsgUpdateClient compares the header's validator set hash -/\ndef updateChecksValidatorSet : Bool := %v\n", v)
 	b.WriteString("\nend DymVerif.Gen.IBC\n")
 	return b.String(), notes, nil
 }
